@@ -529,6 +529,10 @@ def run(rep, ctx):
     with rep.guard("R09.6"):
         r09_6(rep, M, "R09.6")
     rep.floor("R09.6", 2)
+    rep.rule("R09.7", "no function keeps results in module-level state or functools caches (answers do not depend on what the process analysed before)")
+    with rep.guard("R09.7"):
+        from .. import symrules as _SRms
+        _SRms.module_state(rep, ctx.model, "R09.7")
     rep.floor("R09.1", 2)
     rep.floor("R09.2", 4)
     rep.floor("R09.3", 9)
